@@ -101,6 +101,41 @@ let psrun x = pstr x.sr_text; (match x.sr_sty with None -> pint 0 | Some a -> pi
 let psitem x = pz x.si_idx; pz x.si_st; pz x.si_en; plist (plist psrun) x.si_lines
 let pres f = function Ok v -> pint 0; f v | Err _ -> pint 1 | Panic _ -> pint 2
 
+(* WebVTT *)
+let rvtag r = let n = rstr r in let a = rstr r in let c = rlist rstr r in { vt_name = n; vt_annot = a; vt_classes = c }
+let pvtag t = pstr t.vt_name; pstr t.vt_annot; plist pstr t.vt_classes
+let ropt_with f r = if rint r = 0 then None else Some (f r)
+let popt_with f = function None -> pint 0 | Some v -> pint 1; f v
+let rvrun r = let t = rstr r in let tg = ropt_with (rlist rvtag) r in let tm = rz r in let c = ropt_with rstr r in
+  { vr_text = t; vr_tags = tg; vr_time = tm; vr_color = c }
+let pvrun x = pstr x.vr_text; popt_with (plist pvtag) x.vr_tags; pz x.vr_time
+let rvline r = let rs = rlist rvrun r in let v = rstr r in { vl_runs = rs; vl_voice = v }
+let pvline l = plist pvrun l.vl_runs; pstr l.vl_voice
+let rvset r = let a = rstr r in let l = rstr r in let p = rstr r in let s = rstr r in let v = rstr r in
+  { vs_align = a; vs_line = l; vs_position = p; vs_size = s; vs_vertical = v }
+let pvset s = pstr s.vs_align; pstr s.vs_line; pstr s.vs_position; pstr s.vs_size; pstr s.vs_vertical
+let rvitem r = let i = rz r in let s = rz r in let e = rz r in let c = rlist rstr r in let rg = ropt_with rstr r in
+  let st = ropt_with rvset r in let fb = ropt_with rvset r in let ls = rlist rvline r in
+  { vi_idx = i; vi_st = s; vi_en = e; vi_comments = c; vi_region = rg; vi_set = st; vi_fb = fb; vi_lines = ls }
+let pvitem x = pz x.vi_idx; pz x.vi_st; pz x.vi_en; plist pstr x.vi_comments; popt_with pstr x.vi_region;
+  popt_with pvset x.vi_set; plist pvline x.vi_lines
+let rvra r = let l = rz r in let a = rstr r in let s = rstr r in let v = rstr r in let w = rstr r in
+  { ra_lines = l; ra_anchor = a; ra_scroll = s; ra_vanchor = v; ra_width = w }
+let pvra a = pz a.ra_lines; pstr a.ra_anchor; pstr a.ra_scroll; pstr a.ra_vanchor; pstr a.ra_width
+let rvregion r = let i = rstr r in let a = ropt_with rvra r in let f = ropt_with rvra r in { rg_id = i; rg_attr = a; rg_fb = f }
+let rvdoc r = let it = rlist rvitem r in
+  let rg = rlist (fun r -> let k = rstr r in let v = rvregion r in (k, v)) r in
+  let st = rlist (fun r -> let k = rstr r in let v = ropt_with (rlist rstr) r in (k, v)) r in
+  let ts = ropt_with (fun r -> let a = rz r in let b = rz r in (a, b)) r in
+  { vd_items = it; vd_regions = rg; vd_styles = st; vd_tsmap = ts }
+let str_of_ns (s : n list) = String.concat "," (List.map (fun c -> string_of_int (int_of_n c)) s)
+let pvdoc d =
+  plist pvitem d.vd_items;
+  plist (fun (k, rg) -> pstr k; pstr rg.rg_id; popt_with pvra rg.rg_attr)
+    (List.sort (fun (a, _) (b, _) -> compare (List.map int_of_n a) (List.map int_of_n b)) d.vd_regions);
+  plist (fun (k, v) -> pstr k; popt_with (plist pstr) v) d.vd_styles;
+  popt_with (fun (a, b) -> pz a; pz b) d.vd_tsmap
+
 let run_case (suite : string) (r : rd) : unit =
   match suite with
   | "order" -> plist pitem (order (rlist ritem r))
@@ -142,7 +177,7 @@ let run_case (suite : string) (r : rd) : unit =
     let line = rstr r in let a = rsa r in
     let (runs, a') = parse_text_srt line a in
     if not (html_simple line) then Buffer.add_string b "NS 0 " else
-    pint 1; pint 0; pint 0; pint 0; pint 1; plist psrun runs; psa a'
+    (pint 0; pint 1; pint 0; pint 0; pint 0; pint 1; plist psrun runs; psa a')
   | "htmlesc" -> let t = rstr r in let e = escape_html t in pstr e; pstr (unescape_html e)
   | "lines" -> plist pstr (lines (rstr r))
   | "scan" -> let d = rstr r in let cs = rlist (fun r -> nat_of_int (rint r)) r in plist pstr (scan d cs)
@@ -153,6 +188,19 @@ let run_case (suite : string) (r : rd) : unit =
     let name = rstr r in
     (match reader_for name with Ok _ -> pint 0 | _ -> pint 1);
     (match writer_for name with Ok _ -> pint 0 | _ -> pint 1)
+  | "vttreadm" ->
+    let d = rstr r in
+    let res = read_vtt d in
+    if List.for_all vtt_line_simple (lines d) then pres pvdoc res
+    else (Buffer.add_string b "NS "; pres (fun _ -> ()) res)
+  | "vtttext" ->
+    let line = rstr r in let tags = rlist rvtag r in
+    if not (vtt_line_simple line) then Buffer.add_string b "NS 0 " else
+    let (l, tags') = parse_text_vtt line tags in
+    pint 0; pvline l; plist pvtag tags'
+  | "vttwritem" ->
+    let d = rvdoc r in
+    pres pstr (write_vtt d (List.map fst d.vd_styles) (List.map fst d.vd_regions))
   | "trimspace" -> pstr (trim_space (rstr r))
   | "atoi" -> poptz (atoi (rstr r))
   | _ -> failwith ("unknown suite " ^ suite)
